@@ -1,4 +1,4 @@
-import RosuModel.Lemmas.PerfCalcTaiko
+import RosuModel.Lemmas.PerfCalcOsu4
 import RosuModel.Gen.PerfConsts
 
 /-!
@@ -217,11 +217,154 @@ hits and `max(1000/successful, 1)·misses` otherwise, hence `≥ 0`; the multipl
 theorem taiko_multiplier_pos (a : TaikoAttrs ℝ) (m : TaikoMods) : 0 < taikoMultiplier a m :=
   taikoMultiplier_pos a m
 
+/-! ## osu! -/
+
+/-- the calculator `OsuPerformance::calculate` builds after `generate_state` -/
+noncomputable def osuCalcOf (a : OsuAttrs ℝ) (m : OsuMods) (s : OsuState) (lazer classic : Bool) : OsuCalc ℝ :=
+  { attrs := a, mods := m, acc := osuAccuracy a s lazer classic, state := s,
+    effectiveMissCount := osuEffectiveMissCount a s classic, usingClassicSliderAcc := classic }
+
+/-- what `OsuPerformance::calculate` hands to the calculator satisfies the calculator's base
+hypotheses for EVERY state with at least one hit: `acc ≥ 0`, `0 ≤ effective_miss_count ≤ total_hits` -/
+theorem osu_calc_base (a : OsuAttrs ℝ) (m : OsuMods) (s : OsuState) (lazer classic : Bool)
+    (h : 0 < s.totalHits) : OsuCalcBase (osuCalcOf a m s lazer classic) :=
+  ⟨h, osuAccuracy_nonneg a s lazer classic, (osuEffectiveMissCount_bounds a s classic).1,
+    (osuEffectiveMissCount_bounds a s classic).2.1⟩
+
+/-- `misses ≤ effective_miss_count ≤ total_hits` for the f64-shaped computation over ℝ (every state) -/
+theorem osu_effective_miss_mem (a : OsuAttrs ℝ) (s : OsuState) (classic : Bool) :
+    (s.misses : ℝ) ≤ osuEffectiveMissCount a s classic ∧ osuEffectiveMissCount a s classic ≤ (s.totalHits : ℝ) :=
+  osuEffectiveMissCount_mem a s classic
+
+/-- (d) miss penalty: in-domain and within (0, 0.96] for a strain count `> 1` and `misses ≥ 0` -/
+theorem osu_miss_penalty (mc d : ℝ) (hmc : 0 ≤ mc) (hd : 1 < d) :
+    calculateMissPenaltyDom mc d = true ∧ 0 < calculateMissPenalty mc d ∧ calculateMissPenalty mc d ≤ 0.96 :=
+  ⟨calculateMissPenaltyDom_true hmc hd, (calculateMissPenalty_mem hmc hd).1, (calculateMissPenalty_mem hmc hd).2⟩
+
+/-- the hypothesis `1 < count` of `osu_miss_penalty` is needed in the real-number reading: at
+`count = 1` the code divides by `4·ln(1)^0.94 = 0` (IEEE: `x/0 = +inf`, `0.96/inf = 0`), and
+`count = 0` takes `ln 0`.  Both are reachable from real maps (see docs/delivery-PP.md). -/
+theorem osu_miss_penalty_domain_fails_at_one (mc : ℝ) : calculateMissPenaltyDom mc (1 : ℝ) = false := by
+  unfold calculateMissPenaltyDom
+  have h : nz (4.0 * PPOps.powf (PPOps.ln (1 : ℝ)) 0.94 : ℝ) = false := by
+    have : (4.0 * PPOps.powf (PPOps.ln (1 : ℝ)) 0.94 : ℝ) = 0 := by
+      show (4.0 : ℝ) * (Real.log 1) ^ (0.94 : ℝ) = 0
+      rw [Real.log_one, Real.zero_rpow (by norm_num), mul_zero]
+    unfold nz; rw [this]
+    have : PPOps.beq (0 : ℝ) 0.0 = true := by rw [r_beq]; norm_num
+    rw [this]; rfl
+  rw [h]; simp
+
+/-- (d) combo scaling ∈ [0,1] and in-domain for every calculator state -/
+theorem osu_combo_scaling (c : OsuCalc ℝ) :
+    getComboScalingFactorDom c = true ∧ 0 ≤ getComboScalingFactor c ∧ getComboScalingFactor c ≤ 1 :=
+  ⟨getComboScalingFactorDom_true c, (getComboScalingFactor_mem c).1, (getComboScalingFactor_mem c).2⟩
+
+/-- (d) the high-deviation nerf is in-domain and lies in (0, 1] for a positive speed deviation
+(so `speed_value · nerf ≤ speed_value`) -/
+theorem osu_high_deviation_nerf (c : OsuCalc ℝ) (sd : ℝ) (hsd : 0 < sd) :
+    calculateSpeedHighDeviationNerfDom c sd = true
+      ∧ 0 < calculateSpeedHighDeviationNerf c sd ∧ calculateSpeedHighDeviationNerf c sd ≤ 1 :=
+  ⟨calculateSpeedHighDeviationNerfDom_true c hsd, (calculateSpeedHighDeviationNerf_mem c hsd).1,
+    (calculateSpeedHighDeviationNerf_mem c hsd).2⟩
+
+/-- `difficulty_to_performance` of aim/speed is positive for every real rating; flashlight's `≥ 0` -/
+theorem osu_difficulty_to_performance (d : ℝ) :
+    0 < strainDifficultyToPerformance d ∧ 0 ≤ flashlightDifficultyToPerformance d :=
+  ⟨strainDifficultyToPerformance_pos d, flashlightDifficultyToPerformance_nonneg d⟩
+
+/-- (a)+(b) accuracy value: no hypothesis at all -/
+theorem osu_accuracy_value (c : OsuCalc ℝ) :
+    computeAccuracyValueDom c = true ∧ 0 ≤ computeAccuracyValue c :=
+  ⟨computeAccuracyValueDom_true c, computeAccuracyValue_nonneg c⟩
+
+/-- (a)+(b) flashlight value: under the base hypotheses only -/
+theorem osu_flashlight_value (c : OsuCalc ℝ) (B : OsuCalcBase c) :
+    computeFlashlightValueDom c = true ∧ 0 ≤ computeFlashlightValue c :=
+  ⟨computeFlashlightValueDom_true c B, computeFlashlightValue_nonneg c B⟩
+
+/-- (a)+(b) aim value -/
+theorem osu_aim_value (c : OsuCalc ℝ) (B : OsuCalcBase c) (A : OsuAimOK c) :
+    computeAimValueDom c = true ∧ 0 ≤ computeAimValue c :=
+  ⟨computeAimValueDom_true c B A, computeAimValue_nonneg c B A⟩
+
+/-- (a)+(b) speed value, given a positive speed deviation -/
+theorem osu_speed_value (c : OsuCalc ℝ) (B : OsuCalcBase c) (S : OsuSpeedOK c) (sd : ℝ) (hsd : 0 < sd) :
+    computeSpeedBodyDom c sd = true ∧ 0 ≤ computeSpeedBody c sd :=
+  ⟨computeSpeedBodyDom_true c B S hsd, computeSpeedBody_nonneg c B S hsd⟩
+
+/-- (a) osu!, whole calculation (`OsuPerformance::calculate` after `generate_state`): every partial
+operation is in its domain, given `OsuAttrsOK` (strain counts `> 1`, `ar ≤ 37`, `hp² ≤ 1000/3`,
+`speed_note_count ≥ 0`, `great_hit_window ≥ −7`, `n_spinners ≤ total_hits`, the `u32` consistency
+`generate_state` provides), the lazer-branch `u32` bound, and `SpeedDeviationOK` (the speed deviation's
+own side conditions hold and it is positive when present — NOT proved here, see the delivery note) -/
+theorem osu_domain_ok (sf : Special ℝ) (a : OsuAttrs ℝ) (m : OsuMods) (s : OsuState) (lazer classic : Bool)
+    (hh : 0 < s.totalHits) (H : OsuAttrsOK (osuCalcOf a m s lazer classic))
+    (hu : classic = false → a.nSliders - s.sliderEndHits ≤ a.maxCombo)
+    (D : SpeedDeviationOK sf (osuCalcOf a m s lazer classic)) :
+    osuCalculateDom sf a m s lazer classic = true := by
+  have B := osu_calc_base a m s lazer classic hh
+  have e2 := osuCalculatorCalculateDom_true sf _ B H D
+  have e1 : osuEffectiveMissCountDom a s classic = true := by
+    unfold osuEffectiveMissCountDom
+    have hmax : nz (PPOps.fmax (PPOps.ofNat s.maxCombo : ℝ) 1.0) = true := by
+      rw [nz_iff]
+      have : (0 : ℝ) < max ((s.maxCombo : ℕ) : ℝ) 1.0 := lt_of_lt_of_le (by norm_num) (le_max_right _ _)
+      exact this.ne'
+    by_cases hs : a.nSliders > 0
+    · rw [if_pos hs]
+      cases hc : classic with
+      | true => simp only [if_true]; exact hmax
+      | false =>
+        have h1 : s.sliderEndHits ≤ a.nSliders := H.ends (by show classic = false; exact hc)
+        have h2 : s.largeTickHits ≤ a.nLargeTicks := H.ticks (by show classic = false; exact hc)
+        have h3 := hu hc
+        simp only [Bool.false_eq_true, if_false]
+        rw [decide_eq_true h1, decide_eq_true h3, decide_eq_true h2, hmax]; rfl
+    · rw [if_neg hs]
+  show (osuEffectiveMissCountDom a s classic
+    && osuCalculatorCalculateDom sf (osuCalcOf a m s lazer classic)) = true
+  rw [e1, e2]; rfl
+
+/-- (b) osu!, whole calculation: pp, pp_aim, pp_speed, pp_acc, pp_flashlight `≥ 0` and
+`0 ≤ effective_miss_count ≤ total_hits` -/
+theorem osu_pp_nonneg (sf : Special ℝ) (a : OsuAttrs ℝ) (m : OsuMods) (s : OsuState) (lazer classic : Bool)
+    (hh : 0 < s.totalHits) (H : OsuAttrsOK (osuCalcOf a m s lazer classic))
+    (D : SpeedDeviationOK sf (osuCalcOf a m s lazer classic)) :
+    0 ≤ (osuCalculate sf a m s lazer classic).pp ∧ 0 ≤ (osuCalculate sf a m s lazer classic).ppAim
+      ∧ 0 ≤ (osuCalculate sf a m s lazer classic).ppSpeed ∧ 0 ≤ (osuCalculate sf a m s lazer classic).ppAcc
+      ∧ 0 ≤ (osuCalculate sf a m s lazer classic).ppFlashlight
+      ∧ 0 ≤ (osuCalculate sf a m s lazer classic).effectiveMissCount
+      ∧ (osuCalculate sf a m s lazer classic).effectiveMissCount ≤ (s.totalHits : ℝ) :=
+  osuCalculatorCalculate_nonneg sf _ (osu_calc_base a m s lazer classic hh) H D
+
+/-- (c) osu!: zero hits ⇒ pp and every component are 0, no speed deviation (full formula, for every
+attribute value, flag and `erf`/`erf_inv`) -/
+theorem osu_zero_hits_zero_pp_full (sf : Special ℝ) (a : OsuAttrs ℝ) (m : OsuMods) (s : OsuState)
+    (lazer classic : Bool) (h : s.totalHits = 0) :
+    (osuCalculate sf a m s lazer classic).pp = 0 ∧ (osuCalculate sf a m s lazer classic).ppAim = 0
+      ∧ (osuCalculate sf a m s lazer classic).ppSpeed = 0 ∧ (osuCalculate sf a m s lazer classic).ppAcc = 0
+      ∧ (osuCalculate sf a m s lazer classic).ppFlashlight = 0
+      ∧ (osuCalculate sf a m s lazer classic).effectiveMissCount = 0
+      ∧ (osuCalculate sf a m s lazer classic).speedDeviation = none :=
+  osuCalculatorCalculate_zero_hits sf _ h
+
 /-! ### non-vacuity -/
 
 /-- the hypotheses on the special functions are satisfiable (here by the identity functions; for the
 transcribed `erf`/`erf_inv` they are checked numerically on every run) -/
 example : ErfFacts ⟨fun x => x, fun z => z⟩ := ⟨fun _ h _ => h, fun _ h => h⟩
+
+/-- a realistic osu! calculator state satisfies `OsuAttrsOK` -/
+example : OsuAttrsOK
+    ({ attrs := { aim := 3, aimDifficultSliderCount := 10, speed := 2, flashlight := 1, sliderFactor := 0.9,
+                  speedNoteCount := 100, aimDifficultStrainCount := 50, speedDifficultStrainCount := 40,
+                  ar := 9, greatHitWindow := 30, okHitWindow := 80, mehHitWindow := 120, hp := 5,
+                  nCircles := 200, nSliders := 100, nLargeTicks := 50, nSpinners := 1, maxCombo := 500 },
+       mods := default, acc := 0.98, state := ⟨480, 50, 100, 100, 290, 8, 2, 1⟩,
+       effectiveMissCount := 1, usingClassicSliderAcc := false } : OsuCalc ℝ) :=
+  ⟨by norm_num, by norm_num, by norm_num, by norm_num, by norm_num, by norm_num, by decide,
+    fun h => by simp at h, fun _ => by decide, fun _ => by decide⟩
 
 example : TaikoAttrsOK ⟨30, 0.5, 5, 1000, false⟩ := ⟨by norm_num, by norm_num, by norm_num⟩
 
